@@ -291,3 +291,40 @@ func VH_C02_partial_expression() {
 	}
 	sdb.VerifReach("end")
 }
+
+// vhIntIsReal: the integer i and the real f are the same number (exactly; not
+// after rounding i to float64).
+func vhIntIsReal(i int64, f float64) bool {
+	if !(f >= -9223372036854775808.0 && f < 9223372036854775808.0) {
+		return false // out of the int64 range, infinities, NaN
+	}
+	t := int64(f)
+	return sdb.VerifAnd(float64(t) == f, t == i)
+}
+
+// Keys of another numeric class: the indexed column holds integers, the key is a
+// REAL. SQLite compares the two numerically and exactly: only an integral key
+// equal to the stored integer matches (never one that merely truncates or rounds
+// to it).
+//verif:bounds rowid table t(a,b), 2 rows, index on b (ASC/DESC), both index orders; key = any float64 (NaN excluded); IndexedSelectEq returns exactly the rows whose integer b is numerically equal to the key
+func VH_C03_real_key() {
+	d, db := vhSetupWith(true, vhDefaultTableSQL)
+	kf := sdb.VerifFloat64()
+	sdb.VerifAssume(kf == kf)
+	var got []Row
+	err := db.IndexedSelectEq("t", "i", Key{kf}, func(r Row) { got = append(got, r) }, "a", "b", "rowid")
+	sdb.VerifNoErr(err, "indexed equality select with a real key succeeds")
+	var want []vhRow
+	for _, i := range d.order {
+		if vhIntIsReal(d.rows[i].vals[1], kf) {
+			want = append(want, d.rows[i])
+		}
+	}
+	sdb.VerifAssert(len(got) == len(want), "exactly the rows whose integer equals the real key")
+	if len(got) == len(want) {
+		for i := range got {
+			sdb.VerifAssert(vhRowIs(got[i], want[i]), "matching rows in index order")
+		}
+	}
+	sdb.VerifReach("end")
+}
